@@ -270,6 +270,13 @@ def str_eq(a, b):
             x, y = ta[3], tb[3]
             if isinstance(x, Str) and isinstance(y, Str): return str_eq(x, y)
             return term_eq(x, y)
+        if ta[0] == 'fmtn':
+            # same template, same formatting traits and types: equal texts iff equal arguments (boundaries are C02's business)
+            if ta[1] != tb[1] or len(ta[2]) != len(tb[2]) or any(p[0] != q[0] or p[2] != q[2] for p, q in zip(ta[2], tb[2])): return _str_eq_slow(a, b)
+            return b_and(*[(str_eq(p[1], q[1]) if isinstance(p[1], Str) and isinstance(q[1], Str) else term_eq(p[1], q[1])) for p, q in zip(ta[2], tb[2])])
+        if ta[0] == 'concat':
+            if len(ta[1]) != len(tb[1]): return _str_eq_slow(a, b)
+            return b_and(*[str_eq(x, y) for x, y in zip(ta[1], tb[1])])
     if isinstance(ta, (str, tuple)) or isinstance(tb, (str, tuple)):
         return _str_eq_slow(a, b)
     return v_eq(ta, tb)
